@@ -422,7 +422,31 @@ def log(p):
         for mono, c in p.terms.items():
             if mono and c == 1 and len(mono) == 1 and isinstance(mono[0][0], Exp):
                 return P(App("softplus", (mono[0][0].arg,)))
+    # log of the perfect square 1 + 2m + m^2 (m a positive exponential monomial) = 2 log(1 + m)
+    if len(p.terms) == 3 and p.terms.get(()) == 1:
+        for mono, c in p.terms.items():
+            if mono and c == 2 and all(isinstance(a, Exp) for a, _ in mono):
+                cand = ONE + Poly({mono: _F1})
+                if cand * cand == p:
+                    return 2 * log(cand)
     return P(App("log", (p,)))
+
+
+def trig_normal(p):
+    """sin(y)^2 -> 1 - cos(y)^2 in every monomial (a canonical form for polynomials in cos y, sin y: at most one sin(y) per
+    monomial), applied to the atoms' own arguments as well."""
+    p = P(p)
+    out = ZERO
+    for mono, c in p.terms.items():
+        term = const(c)
+        for a, pw in mono:
+            if isinstance(a, App) and a.op == "sin" and isinstance(pw, int) and pw >= 2:
+                cs = P(App("cos", a.args))
+                term = term * powq(ONE - cs * cs, pw // 2) * (P(a) if pw % 2 else ONE)
+            else:
+                term = term * powq(P(a), pw)
+        out = out + term
+    return out
 
 
 def is_positive(p):
